@@ -76,18 +76,32 @@ pub fn open_dump(bytes: Vec<u8>, strict: bool) -> String {
     }
 }
 
-/// `list`: file with one image path per line.
-pub fn run(list: &str, ops_path: &str, impl_path: &str) {
+/// `list`: file with one image path per line.  `start` is the index of the first (file, mode) pair
+/// to run (outputs are appended when it is not 0).  A pair that times out leaves a runaway worker
+/// thread behind (it may be allocating without bound): the outputs so far are written and the
+/// process exits with code 75 after printing `RESTART <next pair>`; the caller runs it again.
+pub fn run(list: &str, ops_path: &str, impl_path: &str, start: usize) {
+    use std::io::Write as _;
     let files = std::fs::read_to_string(list).unwrap();
-    let mut ops = String::new();
-    let mut imp = String::new();
+    let open = |p: &str| std::fs::OpenOptions::new().create(true).write(true).append(start > 0).truncate(start == 0).open(p).unwrap();
+    let (mut ops, mut imp) = (open(ops_path), open(impl_path));
+    let mut k = 0usize;
     for f in files.lines().filter(|l| !l.is_empty()) {
-        let Ok(bytes) = std::fs::read(f) else { continue };
+        let Ok(bytes) = std::fs::read(f) else { k += 2; continue };
         for mode in ["permissive", "strict"] {
+            k += 1;
+            if k <= start {
+                continue;
+            }
+            let r = open_dump(bytes.clone(), mode == "strict");
             writeln!(ops, "open {} {}", mode, f).unwrap();
-            writeln!(imp, "{}", open_dump(bytes.clone(), mode == "strict")).unwrap();
+            writeln!(imp, "{}", r).unwrap();
+            if r == "timeout" {
+                ops.flush().unwrap();
+                imp.flush().unwrap();
+                println!("RESTART {}", k);
+                std::process::exit(75);
+            }
         }
     }
-    std::fs::write(ops_path, ops).unwrap();
-    std::fs::write(impl_path, imp).unwrap();
 }
